@@ -28,10 +28,10 @@ def wide_skel(nfiles, ndirs):
 SKELS = {"CH12": chain_skel(12), "CH30": chain_skel(30), "W20": wide_skel(20, 12), "W60": wide_skel(60, 40), "S6": S6, "S1": S1, "S2": S2, "S2q": S2q, "S2b": S2b, "S3": S3, "S4": S4, "S5": S5}
 
 
-def tree_ob(prefix, skel, mode, fix, fixp=True, fixrev=False, timeout=300, note="", fixexcl=False):
+def tree_ob(prefix, skel, mode, fix, fixp=True, fixrev=False, timeout=300, note="", fixexcl=False, prefixes=("P",)):
     sym = ("" if fixexcl else "matcher verdict of every entry and of the input path; ") + ("" if fixrev else "listing order of every directory") \
           + ("; presence of every entry" if not fixp else "") + "; " \
           + ", ".join(k for k in ("recursive", "auto_ex", "has_prefix", "sep2", "out_i", "ext_t", "ext_m", "excl_root") if k not in fix)
     return vf.CH(f"{prefix} {mode} skeleton={skel} fixed={sorted(fix.items())}{' presence symbolic' if not fixp else ''}{' no exclusions' if fixexcl else ''}{note}", "tree.py",
-                 dict(SKEL=SKELS[skel], MODE=mode, FIXP=fixp, FIXREV=fixrev, FIXEXCL=fixexcl, FIX=fix, SUBTRACT=[]), timeout=timeout,
+                 dict(SKEL=SKELS[skel], MODE=mode, FIXP=fixp, FIXREV=fixrev, FIXEXCL=fixexcl, FIX=fix, PREFIXES=tuple(prefixes), SUBTRACT=[]), timeout=timeout,
                  encodes=ENC, symbolic=sym, bound=f"tree skeleton {skel} = {SKELS[skel]!r}; names concrete (menu), {STUBS}")
